@@ -429,7 +429,8 @@ class Wind:
         self.MAX_DISTANCE_FEET = float(max_distance_feet or cMaxWindDistanceFeet)
         self.velocity = PreferredUnits.velocity(velocity or 0)
         self.direction_from = PreferredUnits.angular(direction_from or 0)
-        self.until_distance = PreferredUnits.distance(until_distance or Distance.Foot(self.MAX_DISTANCE_FEET))
+        self.until_distance = PreferredUnits.distance(
+            Distance.Foot(self.MAX_DISTANCE_FEET) if until_distance is None else until_distance)
 
     @property
     def vector(self) -> Vector:
